@@ -294,6 +294,50 @@ impl World {
                 Some(p) => format!("wire {}", show_bytes(&self.names.borrow().to_model(&p.take_wire()))),
                 None => "bad-op no-pipe".into(),
             },
+            // the delta since the last look, cut into ZMTP messages and SORTED: for wires whose
+            // message order is legitimately nondeterministic (capture socket of a proxy)
+            "wiresorted" => match self.pipes.get(&num(1).unwrap()) {
+                Some(p) => {
+                    let b = self.names.borrow().to_model(&p.take_wire());
+                    let mut msgs: Vec<String> = Vec::new();
+                    let mut i = 0;
+                    let mut start = 0;
+                    let mut ok = true;
+                    while i < b.len() {
+                        let flags = b[i];
+                        let (len, hdr) = if flags & 2 != 0 {
+                            if i + 9 > b.len() {
+                                ok = false;
+                                break;
+                            }
+                            let mut l = [0u8; 8];
+                            l.copy_from_slice(&b[i + 1..i + 9]);
+                            (u64::from_be_bytes(l) as usize, 9)
+                        } else {
+                            if i + 2 > b.len() {
+                                ok = false;
+                                break;
+                            }
+                            (b[i + 1] as usize, 2)
+                        };
+                        if i + hdr + len > b.len() {
+                            ok = false;
+                            break;
+                        }
+                        i += hdr + len;
+                        if flags & 1 == 0 {
+                            msgs.push(show_bytes(&b[start..i]));
+                            start = i;
+                        }
+                    }
+                    if start < b.len() {
+                        ok = false;
+                    }
+                    msgs.sort();
+                    format!("wiresorted {}{}", msgs.join(";"), if ok { "".to_string() } else { format!("|rest:{}", show_bytes(&b[start..])) })
+                }
+                None => "bad-op no-pipe".into(),
+            },
             "halves" => match self.pipes.get(&num(1).unwrap()) {
                 Some(p) => {
                     let s = p.0.lock().unwrap();
